@@ -32,6 +32,7 @@ class Store:
         self.lock = threading.RLock()
         self.log = []              # completed events, in completion order
         self.mutations = []        # (seq, op, name, data|None) in the order they took effect
+        self.mutation_actors = []
         self.calls = 0
         self.in_flight = 0
         self.max_in_flight = 0
@@ -79,13 +80,13 @@ class Store:
                 raise RuntimeError('vf: call budget exhausted (runaway loop)')
             return idx
 
-    def end(self, idx, op, name, outcome, nbytes=None):
+    def end(self, idx, op, name, outcome, nbytes=None, actor=None):
         with self.lock:
             if op in TRANSFER_OPS:
                 self.in_flight -= 1
             self.completion_order.append(idx)
             self.log.append({'call': idx, 'op': op, 'name': name, 'outcome': outcome,
-                             'n': nbytes, 'actor': self.current_actor()})
+                             "n": nbytes, "actor": actor or self.current_actor()})
 
     def delay_for(self, op, name, idx):
         if self.latency is None:
@@ -116,17 +117,18 @@ class Store:
                 return InjectedFault(5, f'vf injected fault ({op} {name} call {idx} {phase})')
         return None
 
-    def apply(self, op, name, data):
+    def apply(self, op, name, data, actor=None):
         """The mutation takes effect atomically here."""
         with self.lock:
             old = self.objects.get(name)
             if self.on_mutation is not None:
-                self.on_mutation(self, op, name, old, data, self.current_actor())
+                self.on_mutation(self, op, name, old, data, actor or self.current_actor())
             if op == 'delete':
                 self.objects.pop(name, None)
             else:
                 self.objects[name] = data
             self.mutations.append((len(self.mutations), op, name, data))
+            self.mutation_actors.append(actor)
             if self.payload_log is not None and data is not None:
                 self.payload_log.append((name, data))
 
@@ -174,9 +176,9 @@ class MemBackend(_Common, short_name='vfmem'):
             if exc is not None:
                 raise exc
         except BaseException as e:
-            st.end(idx, op, name, type(e).__name__, nbytes)
+            st.end(idx, op, name, type(e).__name__, nbytes, self._actor)
             raise
-        st.end(idx, op, name, 'ok', nbytes)
+        st.end(idx, op, name, "ok", nbytes, self._actor)
         return result
 
     def exists(self, name):
@@ -184,7 +186,7 @@ class MemBackend(_Common, short_name='vfmem'):
 
     def upload(self, name, data):
         data = bytes(data)
-        return self._run('upload', name, lambda: self.store.apply('upload', name, data), len(data))
+        return self._run('upload', name, lambda: self.store.apply('upload', name, data, self._actor), len(data))
 
     def upload_stream(self, name, stream, length, chunk_size=DEFAULT_STREAM_CHUNK_SIZE):
         def effect():
@@ -198,7 +200,7 @@ class MemBackend(_Common, short_name='vfmem'):
                 data = b''.join(parts)
                 if len(data) != length:
                     raise InjectedFault(5, f'vf: stream delivered {len(data)} bytes, declared {length}')
-                self.store.apply('upload_stream', name, data)
+                self.store.apply('upload_stream', name, data, self._actor)
             except BaseException:
                 stream.seek(0)
                 raise
@@ -231,7 +233,7 @@ class MemBackend(_Common, short_name='vfmem'):
         return self._run('list_files', prefix, lambda: self.store.names(prefix))
 
     def delete(self, name):
-        return self._run('delete', name, lambda: self.store.apply('delete', name, None))
+        return self._run('delete', name, lambda: self.store.apply('delete', name, None, self._actor))
 
     def clean(self):
         return self._run('clean', '', lambda: None)
@@ -261,9 +263,9 @@ class AsyncMemBackend(_Common, short_name='vfamem'):
             if exc is not None:
                 raise exc
         except BaseException as e:
-            st.end(idx, op, name, type(e).__name__, nbytes)
+            st.end(idx, op, name, type(e).__name__, nbytes, self._actor)
             raise
-        st.end(idx, op, name, 'ok', nbytes)
+        st.end(idx, op, name, "ok", nbytes, self._actor)
         return result
 
     async def exists(self, name):
@@ -272,7 +274,7 @@ class AsyncMemBackend(_Common, short_name='vfamem'):
     async def upload(self, name, data):
         data = bytes(data)
         return await self._run('upload', name,
-                               lambda: self.store.apply('upload', name, data), len(data))
+                               lambda: self.store.apply('upload', name, data, self._actor), len(data))
 
     async def upload_stream(self, name, stream, length, chunk_size=DEFAULT_STREAM_CHUNK_SIZE):
         async def effect():
@@ -287,7 +289,7 @@ class AsyncMemBackend(_Common, short_name='vfamem'):
                 data = b''.join(parts)
                 if len(data) != length:
                     raise InjectedFault(5, f'vf: stream delivered {len(data)} bytes, declared {length}')
-                self.store.apply('upload_stream', name, data)
+                self.store.apply('upload_stream', name, data, self._actor)
             except BaseException:
                 stream.seek(0)
                 raise
@@ -323,7 +325,7 @@ class AsyncMemBackend(_Common, short_name='vfamem'):
             yield n
 
     async def delete(self, name):
-        return await self._run('delete', name, lambda: self.store.apply('delete', name, None))
+        return await self._run('delete', name, lambda: self.store.apply('delete', name, None, self._actor))
 
     async def clean(self):
         return await self._run('clean', '', lambda: None)
